@@ -457,6 +457,7 @@ func TestC13NilValues(t *testing.T) {
 			return &badgerstore.IndexQuery{Index: qs.Index("ia"), KeyPrefix: []byte(q.Get("p")), Limit: -1}, nil
 		})
 		qs.AddIndex(badgerstore.Index{Name: "ia", Key: key})
+		defer qs.Flush() // before the database is closed: index updates run on a goroutine of their own
 		model := map[string]string{} // id -> key ("" = not indexed)
 		exists := map[string]bool{}
 		n := rapid.IntRange(1, 25).Draw(rt, "nops")
@@ -637,6 +638,7 @@ func inPlaceHistory(rt *rapid.T) (c13, c14 string, updates int) {
 		return &badgerstore.IndexQuery{Index: qs.Index("ia"), KeyPrefix: []byte(q.Get("p")), Limit: -1}, nil
 	})
 	qs.AddIndex(badgerstore.Index{Name: "ia", Key: key})
+	defer qs.Flush() // before the database is closed
 	var mu sync.Mutex
 	var log []string
 	qs.OnQueryChange(func(qc store.QueryChange) {
